@@ -100,6 +100,11 @@ def generate(seed, tier):
     swarm = core.stream(seed, "swarm")
     config = list(swarm.choice(CONFIGS))
     table = draw_table(rng, config)
+    if swarm.random() < 0.004:
+        # a physical line longer than any buffer although every cell is of modest size (well below the 131072
+        # characters the csv module takes per field): four cells of 40000 characters
+        table = [["".join(rng.choice(["x", "y", config[0], config[1], " "]) for _ in range(8)) * 5000 for _ in range(4)],
+                 ["a", "b", "c", "d"]]
     via = swarm.choice(["rowio", "rowio", "validio"])
     if via == "validio" and table:
         # through a CID: every row needs as many items as the CID has (Text) fields
@@ -239,16 +244,24 @@ def _features(config, table):
     return features
 
 
+def _short(table):
+    """Tables with very long cells are shown abridged in messages."""
+    if not isinstance(table, list):
+        return table
+    return [[cell if not isinstance(cell, str) or len(cell) <= 60 else "%s...<%d characters>" % (cell[:20], len(cell))
+             for cell in row] if isinstance(row, list) else row for row in table]
+
+
 def judge(config, table, status, value):
     if status != "ok":
         features = _features(config, table)
         if features != ["delimiter-equals-escape"]:
             features.append("class=" + type(value).__name__)
         raise core.Violation("round-trip-" + status, features,
-                             "config %r table %r: %r" % (config, table, value))
+                             "config %r table %r: %r" % (config, _short(table), value))
     if value != table:
         raise core.Violation("round-trip-differs", _features(config, table), "config %r: written %r, read back %r" % (
-            config, table, value))
+            config, _short(table), _short(value)))
 
 
 def _execute_sweep(scenario):
